@@ -14,9 +14,6 @@ def sh(cmd, cwd=None, timeout=1800):
 
 ALL = [f"C{i:02d}" for i in range(1, 21)]
 base = {}
-for Q in ALL:
-    c, e = core.run_property(Q, "quick", "/repo")
-    base[Q] = ({f.key for f in c.findings}, e)
 for P in [a for a in sys.argv[1:] if not a.startswith("--")]:
     out, wt = f"/tmp/ben_{P}", f"/tmp/wb_{P}"
     for I in range(1, 10):
@@ -32,16 +29,26 @@ for P in [a for a in sys.argv[1:] if not a.startswith("--")]:
         sh("git checkout -q -- . ; git clean -fdq", wt)
         same = rc0 == 0 and rc1 == 0 and o0.strip() == o1.strip() and o0.strip() != ""
         ok = rc_apply == 0 and "46 passed" in o_t and same
+        # all properties on the worktree's sources with the refactor applied on disk, against the same worktree without it
+        # (the worktree may be a few fix: commits behind /repo; both sides of the comparison use the same base)
         results = {}
-        ov = selftest.patched_sources(diff, "/repo")
-        if ov is not None:
+        if wt not in base:
+            base[wt] = {}
             for Q in ALL:
-                ctx, err = core.run_property(Q, "quick", "/repo", overrides=ov)
-                newk = {f.key for f in ctx.findings} - base[Q][0]
-                if newk:
-                    results[Q] = {"exit": 1, "findings": sorted(newk)}
-                elif err and not base[Q][1]:
-                    results[Q] = {"exit": 2, "error": str(err)[:300]}
+                c0, e0 = core.run_property(Q, "quick", wt)
+                base[wt][Q] = ({f.key for f in c0.findings}, e0)
+        rc_apply2, _ = sh(f"git apply {diff}", wt)
+        try:
+            if rc_apply2 == 0:
+                for Q in ALL:
+                    ctx, err = core.run_property(Q, "quick", wt)
+                    newk = {f.key for f in ctx.findings} - base[wt][Q][0]
+                    if newk:
+                        results[Q] = {"exit": 1, "findings": sorted(newk)}
+                    elif err and not base[wt][Q][1]:
+                        results[Q] = {"exit": 2, "error": str(err)[:300]}
+        finally:
+            sh("git checkout -q -- . ; git clean -fdq", wt)
         d = f"/verif/benign/{sid}"
         os.makedirs(d, exist_ok=True)
         shutil.copy(diff, f"{d}/patch.diff")
